@@ -962,7 +962,10 @@ func (fr *Frame) builtin(st *State, v ssa.Value, b *ssa.Builtin, cc *ssa.CallCom
 		mt := cc.Args[0].Type().Underlying().(*types.Map)
 		x.mapDelete(st, mt, args[0], args[1])
 	case "close":
+		// closing a channel is an effect like a call: "callsite close:<channel> name: cond" ($0 is the channel)
+		fr.pseudoCallSpecs(st, "close:"+fr.describeValue(cc.Args[0]), []Val{{T: args[0], Ty: cc.Args[0].Type()}}, pos)
 		x.bump(st, "chan:close")
+		x.bump(st, "close:"+fr.describeValue(cc.Args[0]))
 	case "print", "println":
 	case "ssa:wrapnilchk":
 		fr.safe(st, "nil-deref", pos, not(eq(args[0], "nil")))
